@@ -107,9 +107,25 @@ def text_audit():
     return bad
 
 
+def gen_coqproject():
+    """_CoqProject is generated from the directory listing (coqdep orders the files)."""
+    files = []
+    for d, _, fs in os.walk(os.path.join(COQ, "theories")):
+        for f in fs:
+            if f.endswith(".v"):
+                files.append(os.path.relpath(os.path.join(d, f), COQ))
+    txt = "-Q theories Cell2V\n" + "\n".join(sorted(files)) + "\n"
+    p = os.path.join(COQ, "_CoqProject")
+    if not os.path.exists(p) or open(p).read() != txt:
+        open(p, "w").write(txt)
+        return True
+    return False
+
+
 def coq_build(clean=False, timeout=1500):
     with Lock("coq"):
-        if not os.path.exists(os.path.join(COQ, "Makefile")) or clean:
+        changed = gen_coqproject()
+        if not os.path.exists(os.path.join(COQ, "Makefile")) or clean or changed:
             rc, out = run(["coq_makefile", "-f", "_CoqProject", "-o", "Makefile"], 60, cwd=COQ)
             if rc != 0:
                 return rc, out
@@ -183,7 +199,7 @@ def harness_build(repo, P):
         modsrc = getattr(P, "HARNESS_DIR", HARNESS)
         tmpl = open(os.path.join(modsrc, "go.mod.tmpl")).read().replace("@REPO@", repo)
         tmpl = tmpl.replace("@BDIR@", bdir)
-        name = getattr(P, "HARNESS_BIN", "vh")
+        name = getattr(P, "HARNESS_BIN", P.ID.lower())
         modfile = os.path.join(bdir, name + ".mod")
         if not os.path.exists(modfile) or open(modfile).read().split("\nrequire (")[0] != tmpl.split("\nrequire (")[0]:
             open(modfile, "w").write(tmpl)
@@ -359,8 +375,11 @@ def main():
     ap.add_argument("--keep", action="store_true")
     a = ap.parse_args()
     if a.build_only:
-        ok = True
         import glob
+        rc, out = coq_build(timeout=3300)
+        ok = rc == 0
+        if not ok:
+            print("setup: coq build failed\n" + "\n".join(out.strip().split("\n")[-30:]))
         for f in sorted(glob.glob(os.path.join(ROOT, "bin", "props", "C*.py"))):
             P = importlib.import_module("props." + os.path.basename(f)[:-3])
             binp, err = harness_build(a.repo, P)
@@ -430,15 +449,14 @@ def main():
         known = load_known()
         bad_idx = sorted(set(dis) | set(mon))
         reported = set()
+        reproduced_known = set()
         for i in bad_idx[:40]:
             c = cases[i]
             want = "mon" if i in mon else "any"
             small = shrink(P, binp, c, workdir, want) if len(reported) < 3 else c
             k = match_known(P, small, known) or match_known(P, c, known)
             if k:
-                line = "KNOWN-FINDING: property=%s %s" % (P.ID, k["what"])
-                if line not in known_lines:
-                    known_lines.append(line)
+                reproduced_known.add(k["id"])
                 continue
             sig = json.dumps(small["ops"], sort_keys=True)
             if sig in reported:
@@ -457,6 +475,11 @@ def main():
                        "replay_cmd": "python3 bin/check.py %s --replay <this file>" % P.ID}
             suffix = "" if (i in mon or getattr(P, "DISAGREE_IS_VIOLATION", False)) else " no-failing-input-found"
             violations.append((write_replay(P, payload["kind"], payload), suffix))
+        for k in known:
+            if k.get("property") == P.ID and k.get("status", "open") == "open":
+                known_lines.append("KNOWN-FINDING: property=%s %s [%s; %s]" % (
+                    P.ID, k["what"], k["id"],
+                    "reproduced this run" if k["id"] in reproduced_known else "not exercised this run"))
         if not violations and (pr["errors"] or herr):
             payload = {"property": P.ID, "kind": "broken-obligation",
                        "proof_errors": pr["errors"], "correspondence_error": herr,
